@@ -284,18 +284,6 @@ def run(ctx):
 
     # 1. design level
     ctx.model_check("SvcInfo_MC", "SvcInfo_MC.cfg" if quick else "SvcInfo_MC_big.cfg", timeout=1500)
-    for probe in ("NeverOk", "NeverFailed"):
-        wd = ctx.sub("probe-" + probe)
-        cfgp = os.path.join(wd, "SvcInfo_MC_%s.cfg" % probe)
-        with open(os.path.join(os.path.dirname(os.path.dirname(os.path.abspath(__file__))), "spec", "SvcInfo_MC.cfg")) as f:
-            txt = re.sub(r"INVARIANTS.*", "INVARIANTS " + probe, f.read())
-        with open(cfgp, "w") as f:
-            f.write(txt)
-        r = ctx.tlc("SvcInfo_MC", cfgp, timeout=600, quiet=True)
-        if not any(probe in v for v in r["violated"]):
-            raise Inconclusive("vacuous model: terminal state %s is not reachable in SvcInfo_MC" % probe)
-    ctx.notes["terminal_states_reachable"] = ["ok", "failed"]
-
     # 2. module scripts from TLC walks
     ngen = 150 if quick else 2500
     scripts, seen = [], set()
@@ -311,6 +299,10 @@ def run(ctx):
             scripts.append(to_script(b))
     if len(scripts) < 20:
         raise Inconclusive("TLC generated only %d module scripts" % len(scripts))
+    outcomes = {x["abstract_result"] for x in scripts}
+    if outcomes != {"ok", "failed"}:
+        raise Inconclusive("vacuous generation: walks of SvcInfo_Gen reached only %s" % sorted(outcomes))
+    ctx.notes["terminal_states_reached_by_walks"] = sorted(outcomes)
     rnd.shuffle(scripts)
     cap = 220 if quick else 3200
     scripts = scripts[:cap]
@@ -322,11 +314,11 @@ def run(ctx):
     cases = []
     for s in scripts:
         for (d, o) in mtu_pairs(quick, rnd, per):
-            cases.append(concretise(s, d, o, len(cases) + 1, rnd, 10000 if quick else 20000))
+            cases.append(concretise(s, d, o, len(cases) + 1, rnd, 6000 if quick else 8000))
     # fixed corner scripts: no owner module at all with 0/1/2/24/200 names at default and boundary MTUs
     for nd in (0, 1, 2, 24, 200):
         for (d, o) in [(0, 0), (1300, 256), (256, 1300)] + ([] if quick else [(65535, 65535), (0, 512), (0, 4096)]):
-            cases.append(concretise({"omods": [], "dmods": [], "ndev": nd, "tags": ["names-only"]}, d, o, len(cases) + 1, rnd, 10000))
+            cases.append(concretise({"omods": [], "dmods": [], "ndev": nd, "tags": ["names-only"]}, d, o, len(cases) + 1, rnd, 6000))
     wd = ctx.sub("replay")
     cpath, tpath = os.path.join(wd, "cases.json"), os.path.join(wd, "trace.ndjson")
     with open(cpath, "w") as f:
@@ -368,25 +360,31 @@ def run(ctx):
     for runid, (r, ev, reason) in sorted(by_run.items()):
         case = cases[runid - 1]
         res = result_of(r)
+        orig_reason = reason
         tags = case.get("tags", [])
         if reason == "to2_failed_without_cause":
             detail = category(res.get("msg", ""))
             if detail == "timeout" and not any(e["ev"] == "owner_devmod" for e in r):
                 detail = "timeout-devmod-never-completes"
-        elif reason.startswith("d2o_un") or reason == "d2o_not_fifo_on_wire":
-            detail = "after-leading-yield" if "yield-first" in tags else "no-leading-yield"
+        elif reason[:4] in ("d2o_", "o2d_") and reason[4:] != "offset":
+            # one family per direction: bytes a module wrote did not reach the peer module complete, in order, once
+            yielded = any(e["ev"] == "dev_yield" and e["seq"] < ev["seq"] for e in r)
+            reason = reason[:4] + "stream_broken"
+            detail = "with-yield" if yielded else "no-yield"
         elif reason == "owner_got_misrouted":
             detail = "to-next-module"
+        elif reason == "devmod_module_list":
+            detail = "empty-list-accepted" if ev.get("modules") == [] else "list-differs"
         else:
             detail = category(res.get("msg", "")) if res.get("err") else "run-completed"
         key = "%s|%s" % (reason, detail)
         if any(t.startswith("SELFTEST:") for t in r[0].get("tags", [])):
             key = "selftest|" + key
         prefix = [e for e in r if e["seq"] <= ev["seq"]] if "seq" in ev else r
-        what = ("recorded event is not a step of SvcInfo.tla (%s): %s; dev_mtu=%s own_mtu=%s names=%s tags=%s; TO2 result: %s" %
-                (reason, json.dumps({k: v for k, v in ev.items() if k not in ("run", "seq")})[:300], case["dev_mtu"], case["own_mtu"],
+        what = ("recorded event is not a step of SvcInfo.tla (first falsified condition: %s): %s; dev_mtu=%s own_mtu=%s names=%s tags=%s; TO2 result: %s" %
+                (orig_reason, json.dumps({k: v for k, v in ev.items() if k not in ("run", "seq")})[:300], case["dev_mtu"], case["own_mtu"],
                  case["fillers"], ",".join(tags), (res.get("msg") or "ok")[-160:]))
-        ctx.violation(key, what, {"case": case, "rejected_event": ev, "reason": reason, "events": prefix[-60:],
+        ctx.violation(key, what, {"case": case, "rejected_event": ev, "reason": orig_reason, "events": prefix[-60:],
                                   "replay": "write [case] to a file and run: vh svc-replay -in file -out trace.ndjson; validate with spec/SvcInfo_Trace.tla"})
         nrej += 1
 
